@@ -40,6 +40,10 @@ add("C18.reader.srt", "AttributeError@srt/reader.py:_TextParser.handle_data",
     "SRT reader: three stray end tags followed by text: the parent is None when handle_data runs",
     {"fmt": "srt", "text": TC + "</b></b></b>x\n"},
     "same 2-line fix as the stray-end-tag TypeError (srt/reader.py line 89)")
+add("C18.reader.srt", "AttributeError@srt/reader.py:_TextParser.handle_starttag",
+    "SRT reader: three stray end tags followed by a start tag: the parent is None when handle_starttag runs",
+    {"fmt": "srt", "text": TC + "</b></b></b><b>\n"},
+    "same 2-line fix as the stray-end-tag TypeError (srt/reader.py line 89)")
 add("C18.reader.srt", "TypeError@utils.py:parse_color",
     "SRT reader: <font color> (attribute without a value) passes None to parse_color -> TypeError from str.lower(None)",
     {"fmt": "srt", "text": TC + "<font color>\n"},
@@ -69,6 +73,10 @@ add("C18.reader.vtt", "TypeError@model.py:Span.push_child",
     {"fmt": "vtt", "text": VC + "<i><ruby>\n"},
     "medium: the model cannot nest ruby in a span; small stop-gap: log and treat <ruby> as an ordinary span unless the parent is the paragraph "
     "(vtt/reader.py line 97-109); 3-4 lines")
+add("C18.reader.vtt", "TypeError@model.py:Rt.push_child",
+    "WebVTT reader: a line break inside <rt>: _handle_string pushes a Br into the Rt element, which only accepts spans -> TypeError",
+    {"fmt": "vtt", "text": VC + "<ruby>a<rt>b\nc\n"},
+    "small: inside Rt / Rb replace the line break by a space (or log and drop it) in _handle_string (vtt/reader.py line 175-177); 2-3 lines")
 add("C18.reader.vtt", "AttributeError@vtt/reader.py:_TextCueParser._handle_endtag",
     "WebVTT reader: enough stray end tags walk the parent chain up to None; the next end tag calls None.parent()",
     {"fmt": "vtt", "text": VC + "</b></b></b></b>\n"},
@@ -181,10 +189,27 @@ add("C18.isd", "ValueError@model.py:Ruby.push_children",
     "medium: in ISD._process_element drop the ruby (or keep only the base as a span) when its children are not a valid combination (isd.py around the "
     "push_children call); ~10 lines")
 add("C18.isd", "ValueError@isd.py:_compute_length",
-    "ISD.from_model: a length in em on an element where the processor has no em reference (tts:disparity=\"1em\" on br/region ...): "
-    "ValueError('Em length computed without em reference')",
+    "ISD.from_model: a relative length on an element for which the style processor passes no reference to _compute_length: tts:disparity=\"1em\" "
+    "-> ValueError('Em length computed without em reference'); tts:lineHeight=\"10%\" on br -> ValueError('Percent length computed without pct "
+    "reference') (same raising function, one signature)",
     {"fmt": "ttml", "text": "<tt NS><body><div><p><br tts:disparity=\"1em\"/></p></div></body></tt>"},
     "small: pass the computed font size as em reference in the Disparity processor (isd.py StyleProcessors.Disparity.compute); few lines")
+
+add("C18.isd", "AttributeError@isd.py:StyleProcessors.Padding.compute",
+    "ISD.from_model: tts:padding on an element other than a region (the IMSC reader stores any style attribute on any content element): the Padding "
+    "processor reads the element's tts:extent, which only regions have -> None.height",
+    {"fmt": "ttml", "text": "<tt NS><body><div><p><br tts:padding=\"10px\"/></p></div></body></tt>"},
+    "small: skip (or drop) the property when element.get_style(Extent) is None in StyleProcessors.Padding.compute (isd.py line 1067-1075), or have the reader "
+    "ignore style attributes that do not apply to the element; 2-3 lines")
+
+add("C18.isd", "AttributeError@isd.py:StyleProcessors.Position.compute",
+    "ISD.from_model: tts:position on an element other than a region: the Position processor reads the element's tts:extent (None) -> None.height",
+    {"fmt": "ttml", "text": "<tt NS><body><div><p><br tts:position=\"center\"/></p></div></body></tt>"},
+    "small: same guard as for Padding (isd.py StyleProcessors.Position.compute), or one reader-side filter on is_style_applicable; 2-3 lines")
+add("C18.isd", "AttributeError@isd.py:StyleProcessors.RubyReserve.compute",
+    "ISD.from_model: tts:rubyReserve without a length on an element that has no computed tts:fontSize (br): the processor reads fs.value of None",
+    {"fmt": "ttml", "text": "<tt NS><body><div><p><br tts:rubyReserve=\"before\"/></p></div></body></tt>"},
+    "small: guard on a missing font size in StyleProcessors.RubyReserve.compute (isd.py line ~1225), or the reader-side applicability filter; 2-3 lines")
 
 # ---------------------------------------------------------------------------------------------------- writers
 add("C18.writer.srt", "ValueError@srt/paragraph.py:SrtParagraph.to_string",
